@@ -2,7 +2,14 @@
 import PymotoVerif.Drv.All
 import PymotoVerif.Props.C02
 import PymotoVerif.Props.C03
+import PymotoVerif.Props.C05
+import PymotoVerif.Props.C06
+import PymotoVerif.Props.C08
+import PymotoVerif.Props.C09
+import PymotoVerif.Props.C12
 import PymotoVerif.Props.C13
+import PymotoVerif.Props.C14
+import PymotoVerif.Props.C15
 import PymotoVerif.Props.C16
 import PymotoVerif.Props.C18
 import PymotoVerif.Props.C20
